@@ -9,7 +9,7 @@ from ..model import Model, numel
 from ..seeds import digest
 from ..shrinkspec import spec_candidates
 from ..spec import gen_program, pick_outputs
-from ..world import World, compare, expect_backward, gen_sched, identity_sched, run_call
+from ..world import spec_eps, World, compare, expect_backward, gen_sched, identity_sched, run_call
 
 ID = "C01"
 LEVEL = "exploration"
@@ -112,7 +112,7 @@ def execute(scn):
     call = scn["call"]
     model = Model(spec)
     stats, events, viols, sets = {}, [], [], {}
-    eps = 1.1920929e-07 if spec["dtype"] == "float32" else 2.220446049250313e-16
+    eps = spec_eps(spec)
     from ..world import require_valid
 
     require_valid(model, call)
